@@ -101,7 +101,9 @@ def engines():
     return E
 
 
-def ob_engine(ename, spec0, N, lp, lr, sym_default, api, label):
+def ob_engine(ename, spec0, N, lp, lr, sym_default, api, label, refill=False):
+    """refill: the caller's per-variable arrays are first filled with other rows and processed, then REFILLED IN PLACE (`buf[:] = rows`,
+    the same array objects) and processed again; the row-by-row engine goes through the same rows one by one"""
     def run(ob):
         fl = install()
         set_mode("R")
@@ -110,10 +112,12 @@ def ob_engine(ename, spec0, N, lp, lr, sym_default, api, label):
         names_in = [iv["name"] for iv in spec0["inputs"]]
         names_out = [ov["name"] for ov in spec0["outputs"]]
         X = [[rvar(f"x{r}_{v}", special=True) for v in names_in] for r in range(N)]
+        Wm = [[rvar(f"w{r}_{v}") for v in names_in] for r in range(N)] if refill else []
         prev = {v: rvar(f"prev_{v}", special=True) for v in names_out}
         D = rvar("D", special=True) if sym_default else None
         pre = wf(*[x for row in X for x in row], *prev.values(), *([D] if D is not None else []))
         ins = {f"x{r}_{v}": X[r][i] for r in range(N) for i, v in enumerate(names_in)}
+        ins.update({f"w{r}_{v}": Wm[r][i] for r in range(len(Wm)) for i, v in enumerate(names_in)})
         ins.update({f"prev_{v}": prev[v] for v in names_out})
         if D is not None:
             ins["D"] = D
@@ -131,20 +135,27 @@ def ob_engine(ename, spec0, N, lp, lr, sym_default, api, label):
         def rbody(v):
             sp = spec_with(v["D"] if sym_default else None)
             rows = [[v[f"x{r}_{n}"] for n in names_in] for r in range(N)]
-            return "\n".join([regeng.PY_BUILD, f"spec = {regeng.spec_literal(sp, lit, lambda x: x)}", f"rows = {lit(rows)}",
+            warm = [[v[f"w{r}_{n}"] for n in names_in] for r in range(len(Wm))]
+            return "\n".join([regeng.PY_BUILD, f"spec = {regeng.spec_literal(sp, lit, lambda x: x)}", f"rows = {lit(rows)}", f"warm = {lit(warm)}",
                               f"prev = {{{', '.join(f'{n!r}: {lit(v[f'prev_{n}'])}' for n in names_out)}}}",
                               "globals()['EXPECT_NO_EXCEPTION'] = False", "import warnings; warnings.simplefilter('ignore')",
                               "e1, e2 = build_engine(spec), build_engine(spec)",
                               "for e in (e1, e2):\n    for n, p in prev.items(): e.output_variable(n).value = p",
                               "try:",
                               ("    given = [np.array(rows, dtype=float)]; e1.input_values = given[0]" if api == "matrix" else
-                               "    given = [np.array([r[i] for r in rows], dtype=float) for i in range(len(rows[0]))]\n    for i, iv in enumerate(e1.input_variables): iv.value = given[i]"),
+                               "    given = [np.array([r[i] for r in (warm or rows)], dtype=float) for i in range(len(rows[0]))]\n    for i, iv in enumerate(e1.input_variables): iv.value = given[i]"),
                               "    e1.process(); exc1 = None",
+                              "    if warm:",
+                              "        for i, g in enumerate(given): g[:] = [r[i] for r in rows]      # the same array objects, refilled in place",
+                              "        e1.process()",
                               "except Exception as ex: exc1 = ex",
                               ("if exc1 is None and not same(given[0], rows): verdict(True, 'the matrix handed to input_values was modified: %r' % (given[0].tolist(),))" if api == "matrix" else
                                "if exc1 is None and not all(same(g, [r[i] for r in rows]) for i, g in enumerate(given)): verdict(True, 'an array handed to an input variable was modified: %r' % ([g.tolist() for g in given],))"),
                               "per_row = []; exc2 = None",
                               "try:",
+                              "    for r in warm:",
+                              "        for i, iv in enumerate(e2.input_variables): iv.value = float(r[i])",
+                              "        e2.process()",
                               "    for r in rows:",
                               "        for i, iv in enumerate(e2.input_variables): iv.value = float(r[i])",
                               "        e2.process()",
@@ -179,15 +190,23 @@ def ob_engine(ename, spec0, N, lp, lr, sym_default, api, label):
                     e1.input_values = given[0][0]
                 else:
                     for i, iv in enumerate(e1.input_variables):
-                        given.append((sym_array([X[r][i] for r in range(N)]), [X[r][i] for r in range(N)]))
+                        given.append((sym_array([(Wm or X)[r][i] for r in range(N)]), [X[r][i] for r in range(N)]))
                         iv.value = given[-1][0]
                 e1.process()
+                if refill:
+                    for i, (arr, _) in enumerate(given):
+                        arr[:] = sym_array([X[r][i] for r in range(N)])      # the same array objects, refilled in place
+                    e1.process()
             except core.Unsupported:
                 raise
             except Exception as ex:  # noqa
                 exc1 = ex
             per_row = []
             try:
+                for r in range(len(Wm)):
+                    for i, iv in enumerate(e2.input_variables):
+                        iv.value = core.PyRFloat.of(Wm[r][i])
+                    e2.process()
                 for r in range(N):
                     for i, iv in enumerate(e2.input_variables):
                         iv.value = core.PyRFloat.of(X[r][i])      # "plain Python floats": float semantics until NumPy touches the value
@@ -251,6 +270,10 @@ def _obligations(tier, seed):
                 for api in apis:
                     nm = f"{ename}/N{N}/{'LP' if lp else 'lp'}{'LR' if lr else 'lr'}{'D' if sd else 'd'}/{api}"
                     obs.append((nm, ob_engine(ename, spec, N, lp, lr, sd, api, nm)))
+        if ename in ("takagi-sugeno", "mamdani-centroid", "function-input") or tier != "quick":
+            for lp in (False, True):
+                nm = f"{ename}/N2/{'LP' if lp else 'lp'}lrd/arrays-refilled-in-place"
+                obs.append((nm, ob_engine(ename, spec, 2, lp, False, False, "arrays", nm, refill=True)))
     return obs
 
 
